@@ -53,6 +53,55 @@ class Unsupported(Exception):
     pass
 
 
+
+# ---- fallback normalisation: two spellings that some generators do not render directly are rewritten, ON A COPY of the function
+# and ONLY after the direct translation was refused, into the equivalent statements they do render (Python semantics, exactly):
+#     x = A if C else B        ->   if C: x = A  else: x = B
+#     l = l + [e]              ->   l.append(e)          (l a plain local name; the generators accept append only on a list the
+#                                                         function built itself and has not aliased, where the two coincide)
+class _FallbackNormaliser(ast.NodeTransformer):
+    def __init__(self):
+        self.changed = False
+
+    def visit_Assign(self, node):
+        self.generic_visit(node)
+        if len(node.targets) == 1 and isinstance(node.value, ast.IfExp):
+            import copy as _copy
+            def mk(v):
+                return ast.copy_location(ast.Assign(targets=[_copy.deepcopy(node.targets[0])], value=v), node)
+            self.changed = True
+            return ast.fix_missing_locations(ast.copy_location(
+                ast.If(test=node.value.test, body=[mk(node.value.body)], orelse=[mk(node.value.orelse)]), node))
+        t, v = node.targets[0], node.value
+        if len(node.targets) == 1 and isinstance(t, ast.Name) and isinstance(v, ast.BinOp) and isinstance(v.op, ast.Add) \
+                and isinstance(v.left, ast.Name) and v.left.id == t.id and isinstance(v.right, ast.List) \
+                and len(v.right.elts) == 1 and not isinstance(v.right.elts[0], ast.Starred):
+            self.changed = True
+            call = ast.Expr(value=ast.Call(func=ast.Attribute(value=ast.Name(id=t.id, ctx=ast.Load()), attr="append", ctx=ast.Load()),
+                                           args=[v.right.elts[0]], keywords=[]))
+            return ast.fix_missing_locations(ast.copy_location(call, node))
+        return node
+
+
+def fallback_normalise(fdef):
+    """a normalised deep copy of the function, or None when there is nothing to normalise"""
+    import copy as _copy
+    f2 = _copy.deepcopy(fdef)
+    n = _FallbackNormaliser()
+    f2 = n.visit(f2)
+    return ast.fix_missing_locations(f2) if n.changed else None
+
+
+def with_fallback(fdef, attempt):
+    """attempt(fdef) -> result; when it refuses the function, try once more on the normalised copy"""
+    try:
+        return attempt(fdef)
+    except Unsupported:
+        f2 = fallback_normalise(fdef)
+        if f2 is None:
+            raise
+        return attempt(f2)
+
 def fail(node, msg):
     line = getattr(node, "lineno", "?")
     raise Unsupported(f"line {line}: {msg}: {ast.dump(node)[:200] if isinstance(node, ast.AST) else node}")
@@ -882,8 +931,12 @@ def translate_function(cls, fdef, monadic, rtype, assumptions, implicit="", name
     if cls == "TermList" and fdef.name == "__init__":
         params = params[1:]
         env.pop("self")
+    def attempt(fd):
+        fn2 = Fn(cls, fd, monadic, rtype, assumptions)
+        fn2.overrides = dict(overrides or {})
+        return fn2.block(list(fd.body), dict(env), "  ", None)
     try:
-        body = fn.block(list(fdef.body), env, "  ", None)
+        body = with_fallback(fdef, attempt)
     except Unsupported as ex:
         if not monadic:
             raise
@@ -3052,9 +3105,8 @@ def n_signature(world: World, cls: str, f: ast.FunctionDef, rtype_annot: Dict[st
 
 
 def n_define(world: World, prefix: str, f: ast.FunctionDef, params, rty, monadic, assumptions, selfname="self") -> str:
-    fn = NFn(world, f, monadic, rty, assumptions)
     try:
-        body = fn.translate(params)
+        body = with_fallback(f, lambda fd: NFn(world, fd, monadic, rty, assumptions).translate(params))
     except Unsupported as ex:
         if not monadic:
             raise
